@@ -303,6 +303,36 @@ def ob_wrappers(report):
                    {'inline_depth': 4, 'RwLock': 'contract: guard gives exclusive/shared access until dropped'}, body)
 
 
+def ob_removal_entry_points(report):
+    """a listed connection leaves the active set only (a) when its own handler ends (by stable id), (b) when `add` replaces it, (c) when the
+    application asks for it: the by-peer-id removal `ActivePeers::remove` is reachable from `Network::disconnect` alone.  Any other caller
+    (an RPC error path, a health check ...) removes whatever connection is registered for that peer now - possibly the replacement of
+    the one it meant."""
+    def body(ob):
+        ex = e2.executor('anemo', [], max_depth=1)
+        target = find_method(ex.prog, 'ActivePeers', 'remove')
+        reach, entries = e2.callers_closure(ex, target)
+        named = {r: ex.prog.fns[r][0] for r in reach}
+        bad = []
+        for r in sorted(entries):
+            f = named[r]
+            last = f.name.rsplit('::', 1)[-1]
+            tr, st = ex.prog.impl_header(f.impl_span) if f.impl_span else (None, None)
+            if r == target.raw:
+                return ob.done([ex], 'inconclusive', 'ActivePeers::remove has no caller in the crate', paths=0)
+            if not (last == 'disconnect' and M.type_head(st or '') in ('Network', 'NetworkInner', 'NetworkRef')):
+                bad.append(f.name)
+        if bad:
+            o = ob.done([ex], 'violated', f'ActivePeers::remove (removal by peer id, whatever connection is registered) is reachable from {bad} - not only from Network::disconnect: '
+                        'a failure observed on an old connection can remove and close its replacement', {'entry_points': sorted(named[e].name for e in entries),
+                                                                                                          'reaching': sorted(f.name for f in named.values())}, key='remove-by-peer-entry', paths=len(reach))
+            o.replay = write_replay(PROP, 'removal_entry_points', {'entry_points': bad})
+            return o
+        ob.done([ex], 'held', '', {'entry_points': sorted(named[e].name for e in entries), 'functions_reaching_remove': len(reach)}, paths=len(reach))
+    return guarded(report, 'removal_by_peer_only_on_explicit_disconnect', 'call graph of the crate (MIR): every chain of crate-local calls that reaches ActivePeers::remove starts in Network::disconnect',
+                   ['ActivePeers::remove', 'every crate function (call graph)'], {'call graph': 'static calls resolved like the executor resolves them; dyn/indirect calls not followed'}, body)
+
+
 def ob_accessors(report):
     def body(ob):
         ex = e2.executor('anemo', max_depth=1)
@@ -407,7 +437,7 @@ def check(report, tier, only=None):
     from props import handler
     from props import C12       # (C12 imports nothing from here)
     # LostPeer must follow the observed end of the connection directly: the removal precedes the teardown of the request tasks
-    obs = [ob_add, ob_remove, ob_remove_sid, ob_wrappers, ob_accessors, lambda rep: handler.ob_handler_tail(rep, PROP), lambda rep: handler.ob_add_peer(rep, PROP),
+    obs = [ob_add, ob_remove, ob_remove_sid, ob_wrappers, ob_accessors, ob_removal_entry_points, lambda rep: handler.ob_handler_tail(rep, PROP), lambda rep: handler.ob_add_peer(rep, PROP),
            C12.ob_tail_aborts_tasks]
     if tier == 'thorough':
         obs.append(ob_two_step)
